@@ -42,6 +42,8 @@ def main():
         if a == '--tier':
             tier = sys.argv[i + 1]
     meta = json.load(open(os.path.join(mdir, 'meta.json')))
+    if 'breaks_property' in meta:     # re-run from /verif/seeded/<id>
+        meta = {'property': meta['breaks_property'], 'summary': meta.get('summary'), 'needs': meta.get('needs_to_manifest'), 'ran': meta.get('author_ran')}
     pid = meta.get('property', sid.split('-')[0])
     props = props or [pid]
     patch = os.path.abspath(os.path.join(mdir, 'patch.diff'))
@@ -63,7 +65,7 @@ def main():
         dpath = os.path.join(scratch, crate, 'tests', fname)
         open(dpath, 'w').write(demo)
         tname = fname[:-3]
-        env = dict(os.environ, CARGO_NET_OFFLINE='true', CARGO_TARGET_DIR=f'/var/tmp/seed-target')
+        env = dict(os.environ, CARGO_NET_OFFLINE='true', CARGO_TARGET_DIR=f'/var/tmp/seed-target-{sid}')
         rc0, out0 = sh(f'cargo test -p {crate} --offline --test {tname}', cwd=scratch, env=env)
         res['demo_clean_passes'] = rc0 == 0
         rc, out = sh(f'git apply {patch}', cwd=scratch)
@@ -90,9 +92,11 @@ def main():
     finally:
         sh(f'git -C /repo worktree remove --force {scratch}')
         shutil.rmtree(scratch, ignore_errors=True)
+        shutil.rmtree(f'/var/tmp/seed-target-{sid}', ignore_errors=True)
     out_dir = os.path.join(VERIF, 'seeded', sid)
     os.makedirs(out_dir, exist_ok=True)
-    shutil.copy(patch, os.path.join(out_dir, 'patch.diff'))
+    if os.path.abspath(patch) != os.path.abspath(os.path.join(out_dir, 'patch.diff')):
+        shutil.copy(patch, os.path.join(out_dir, 'patch.diff'))
     open(os.path.join(out_dir, 'demo.rs'), 'w').write(demo)
     meta_out = {'breaks_property': pid, 'summary': meta.get('summary'), 'needs_to_manifest': meta.get('needs'),
                 'author_ran': meta.get('ran'), 'confirmation': {k: res.get(k) for k in ('demo_clean_passes', 'patch_applies', 'suite_passes_with_patch', 'suite_passed_count', 'demo_fails_with_patch', 'confirmed')},
